@@ -30,6 +30,15 @@ def fam_bubble_chain(n):
     return e
 def fam_tadpole_on_bubble(): return [(0, 1), (0, 1), (1, 1)]
 def fam_disconnected(): return [(0, 1), (0, 1), (7, 8), (7, 8)]
+def fam_dumbbell(): return [(0, 1), (0, 1), (1, 2), (2, 3), (2, 3)]          # two bubbles joined by a bridge (bridge in the middle of the edge list)
+def fam_lollipop(): return [(0, 1), (1, 2), (1, 2)]                          # a bridge first, then a bubble
+def fam_tailed_triangle(): return [(1, 2), (0, 1), (2, 3), (3, 1)]           # a bridge between loop edges
+def fam_triangle_chain(n):
+    # n triangles glued along edges: consecutive ones share an edge, the others are edge-disjoint
+    e = [(0, 1)]
+    for i in range(n):
+        e += [(i, i + 2), (i + 1, i + 2)]
+    return e
 
 
 FAMILIES = [
@@ -39,6 +48,8 @@ FAMILIES = [
     ("ladder2", lambda: fam_ladder(2)), ("two_tadpoles", fam_two_tadpoles), ("bubble_chain2", lambda: fam_bubble_chain(2)),
     ("tadpole_on_bubble", fam_tadpole_on_bubble), ("disconnected", fam_disconnected),
     ("ladder3", lambda: fam_ladder(3)), ("bubble_chain3", lambda: fam_bubble_chain(3)),
+    ("triangle_chain3", lambda: fam_triangle_chain(3)), ("banana5", lambda: fam_banana(5)),
+    ("dumbbell", fam_dumbbell), ("lollipop", fam_lollipop), ("tailed_triangle", fam_tailed_triangle),
 ]
 
 
@@ -308,6 +319,52 @@ def random_unimodular(r, L, steps=None):
             for k in range(L):
                 M[k][j] += c * M[k][i]  # column operation
     return M
+
+
+def fill_in_score(sig):
+    """number of pairs i<j of basis cycles that share no edge (L_ij vanishes identically) although an
+    EARLIER cycle k<i overlaps both: exactly the entries where the Cholesky factor and its inverse fill in"""
+    if not sig or not sig[0]:
+        return 0
+    L = len(sig[0])
+    sup = [{e for e, row in enumerate(sig) if row[l] != 0} for l in range(L)]
+    n = 0
+    for i in range(L):
+        for j in range(i + 1, L):
+            if not (sup[i] & sup[j]) and any(sup[k] & sup[i] and sup[k] & sup[j] for k in range(i)):
+                n += 1
+    return n
+
+
+def sparse_basis(r, sig, tries=300):
+    """a unimodular change of the cycle basis chosen to maximise fill_in_score (sparse L matrices whose factor is NOT
+    sparse): candidate cycles are the combinations S*m, m in {-1,0,1}^L, with entries in {-1,0,1}; L of them with
+    det(m-vectors) = +-1 are drawn (small supports preferred) and ordered for the largest score"""
+    L = len(sig[0]) if sig and sig[0] else 0
+    if L < 3 or L > 5:
+        return sig
+    cands = []
+    for code in range(1, 3 ** L):
+        m = [(code // 3 ** k) % 3 - 1 for k in range(L)]
+        if not any(m):
+            continue
+        col = [sum(row[k] * m[k] for k in range(L)) for row in sig]
+        if all(abs(v) <= 1 for v in col):
+            cands.append((sum(1 for v in col if v), m, col))
+    cands.sort(key=lambda t: t[0])
+    small = cands[:max(2 * L + 4, len(cands) // 3)]
+    best, bs = sig, fill_in_score(sig)
+    for _ in range(tries):
+        pick = [r.choice(small) for _ in range(L)]
+        Mm = [[pick[c][1][k] for c in range(L)] for k in range(L)]
+        if abs(det_int(Mm)) != 1:
+            continue
+        for perm in (permutations(range(L)) if L <= 4 else [tuple(range(L))]):
+            c2 = [[pick[k][2][e] for k in perm] for e in range(len(sig))]
+            sc = fill_in_score(c2)
+            if sc > bs:
+                best, bs = c2, sc
+    return best
 
 
 def matmul_int(A, B):
